@@ -154,6 +154,8 @@ CheckReLimit(e) ==
   /\ \A i \in 1..Len(e.res) : Chk(e.res[i].out = "ok", "parser panicked under a size limit")
   /\ \A i \in 1..(Len(e.res) - 1) : Chk(e.res[i].ok => e.res[i + 1].ok, <<"size limit not monotone at", i>>)
   /\ Chk(e.res[Len(e.res)].ok, "valid pattern rejected under the default size limit")
+  \* a limit is a setting of the parser: the same pattern gets the same verdict inside parentheses and under not
+  /\ \A i \in 1..Len(e.res) : Chk(e.res[i].nested = e.res[i].ok, <<"size limit differs under nesting at", i>>)
 
 Init == l = 1 /\ nbad = 0 /\ TLCSet(11, 0) /\ TLCSet(12, 0) /\ TLCSet(13, 0)
 Next == /\ l <= Len(Rec)
